@@ -20,6 +20,7 @@ import Oryx.Props.C09
 import Oryx.Props.C10
 import Oryx.Props.C11
 import Oryx.Props.C12
+import Oryx.Props.C14
 import Oryx.Props.C16
 import Oryx.Props.C17
 namespace Oryx.Props.C07
@@ -62,6 +63,13 @@ theorem aac_never_panics (st : Aac.Asc) (bs : Bytes) :
 theorem avc_never_panics (bs : Bytes) :
     Avc.naluUnmarshal bs ≠ .panic ∧ Avc.recordUnmarshal bs ≠ .panic ∧ ∀ n, 1 ≤ n → Avc.sampleUnmarshal n bs ≠ .panic :=
   C12.decoders_never_panic bs
+
+/-- WebSocket frame reader: `advanceFrame`, `NextReader`, `ReadMessage` from ANY reader state (role, limits,
+partial message, whatever bytes are still to come); a whole session always ends (no exhausted fuel). -/
+theorem websocket_reader_never_panics (s : WsRead.RState) :
+    WsRead.advanceFrame s ≠ .panic ∧ WsRead.nextReader s ≠ .panic ∧ WsRead.readMessage s ≠ .panic ∧
+    ∃ t, WsRead.session s = some t :=
+  C14.no_panic s
 
 /-- JSON+ reader: the Scanner split function always makes progress (no zero advance, no exhausted
 fuel) on every input in every segmentation. -/
